@@ -6,7 +6,7 @@
 EXTENDS Integers, Sequences, FiniteSets, TLC, GenBase
 CONSTANTS MaxN, MaxT
 Variant == "intended"
-VARIABLES cfg, rd, nxt, chIn, closedIn, w1, w2, chMid, closedMid, chOut, closedOut, wr, written, main, faulted, deliv
+VARIABLES cfg, rd, nxt, chIn, closedIn, w1, w2, chMid, closedMid, chOut, closedOut, wr, written, main, faulted, deliv, s1ord
 M == INSTANCE MCPipeline
 Cmd(name) == CASE name = "toMultiAlign" -> "toma" [] name = "toPairAlign" -> "topa" [] name = "samVariants" -> "samvar"
                [] name = "variants" -> "variants" [] name = "variantsRef" -> "variantsref" [] name = "snps" -> "snps" [] name = "updownList" -> "udlist"
@@ -15,10 +15,13 @@ Init == /\ \E nm \in M!Names, t \in {2, MaxT} :
              LET c0 == M!Topo(nm, MaxN, t)
                  c == [c0 EXCEPT !.T = RealT(c0)]
              IN M!InitWith(M!WithFault(c, [kind |-> "none", at |-> 0]))
-        /\ deliv = <<>>
+        /\ deliv = <<>> /\ s1ord = <<>>
+(* the stage-1 worker whose record was handed on in this step (two-stage pipelines), if any *)
+Handed == {t \in M!Workers(cfg) : w1[t].st = "ready" /\ w1'[t].st = "idle"}
 Next == /\ M!Next
         /\ deliv' = IF wr.st = "got" /\ wr'.st = "flush" THEN Append(deliv, wr.last) ELSE deliv
+        /\ s1ord' = IF cfg.Stages = 2 /\ Handed # {} THEN Append(s1ord, w1[CHOOSE t \in Handed : TRUE].rec) ELSE s1ord
 EmitInv == main = "retNil" =>
-   EmitVec([id |-> "gate-" \o Cmd(cfg.name) \o "-" \o ToString(cfg.T) \o "-" \o ToString(deliv), cmd |-> Cmd(cfg.name),
-            N |-> cfg.N - Cardinality(cfg.Skip), T |-> cfg.T, mode |-> "gate", order |-> deliv])       \* N counts the query records
+   EmitVec([id |-> "gate-" \o Cmd(cfg.name) \o "-" \o ToString(cfg.T) \o "-" \o ToString(deliv) \o ToString(s1ord), cmd |-> Cmd(cfg.name),
+            N |-> cfg.N - Cardinality(cfg.Skip), T |-> cfg.T, mode |-> "gate", order |-> deliv, order1 |-> s1ord])       \* N counts the query records; order1: stage-1 hand-off order (two stages)
 =============================================================================
